@@ -122,7 +122,7 @@ Lemma flush_run_obj_other outs s o ra i :
 Proof.
   intros Hi. unfold flush_run. destruct (Nat.leb (length (p_ahs s)) (snd ra)); [reflexivity|].
   set (a := snd ra) in *. set (ah := get_ah s a) in *. set (ao := get_obj s (ah_app ah)).
-  destruct (inactive ao (p_now s)); [reflexivity|].
+  destruct (flush_inactive ao (p_now s)); [reflexivity|].
   set (s1 := put_ah_h s a (new_harvest (cur_caps ao))).
   assert (F : get_obj (fst (filter_harvest_pkgs s1 (ah_app ah) (ah_h ah))) i = get_obj s i).
   { unfold filter_harvest_pkgs. destruct (h_haspkgs (ah_h ah)); [|reflexivity].
@@ -218,7 +218,7 @@ Record flushed_run (outs : N -> cat -> outcome) (s : proc) (r : N) (a : nat) (s'
 
 Lemma clean_exit_run outs s r a :
   life_inv s -> tab_inv s -> lookupN r (p_runs s) = Some a ->
-  inactive (get_obj s (ah_app (get_ah s a))) (p_now s) = false ->
+  flush_inactive (get_obj s (ah_app (get_ah s a))) (p_now s) = false ->
   flushed_run outs s r a (fst (clean_exit s outs)) (snd (clean_exit s outs)).
 Proof.
   intros Li T Lk Hin. pose proof (li_runs s Li _ _ Lk) as La.
@@ -240,7 +240,7 @@ Proof.
   (* the run itself *)
   assert (G1 : get_ah s1 a = get_ah s a) by apply U1.
   assert (La1 : a < length (p_ahs s1)) by (rewrite (ut_len _ _ _ U1); exact La).
-  assert (Hin1 : inactive (get_obj s1 (ah_app (get_ah s1 a))) (p_now s1) = false).
+  assert (Hin1 : flush_inactive (get_obj s1 (ah_app (get_ah s1 a))) (p_now s1) = false).
   { rewrite G1, (ut_obj _ _ _ U1), (ut_now _ _ _ U1). exact Hin. }
   destruct (flush_run_flow outs s1 o1 (r, a)) as [(Lb & _)|[(_ & Hi & _)|(_ & _ & qs & Eo2 & F)]]; cbn zeta in *; cbn [snd] in *; try lia; try congruence.
   destruct (ctx_flush_run outs s1 o1 (r, a)) as (C2 & _).
@@ -279,7 +279,7 @@ Definition final_for (r : N) (o : list out) : list request := filter (fun q => (
 Theorem flush_complete ops outs r a :
   let s := fst (run ops) in
   lookupN r (p_runs s) = Some a ->
-  inactive (get_obj s (ah_app (get_ah s a))) (p_now s) = false ->
+  flush_inactive (get_obj s (ah_app (get_ah s a))) (p_now s) = false ->
   let mine := final_for r (snd (clean_exit s outs)) in
   (forall q, In q mine -> exists c, rq_kind q = RHarvest c) /\
   (forall t, cnt t (req_tags mine) + cnt t (seen_part s (ah_app (get_ah s a)) (ah_h (get_ah s a))) =
@@ -301,7 +301,7 @@ Theorem flush_delivers pre outs r a :
   accepting (pre ++ [OCleanExit outs]) ->
   let s := fst (run pre) in
   p_quit s = false -> lookupN r (p_runs s) = Some a ->
-  inactive (get_obj s (ah_app (get_ah s a))) (p_now s) = false ->
+  flush_inactive (get_obj s (ah_app (get_ah s a))) (p_now s) = false ->
   let s' := fst (run (pre ++ [OCleanExit outs])) in
   harvest_tags (ah_h (get_ah s' a)) = [] /\
   forall t, In t (harvest_tags (ah_h (get_ah s a))) -> In t (g_acked s') \/ In (t, RSeenPkg) (g_dropped s').
